@@ -452,7 +452,7 @@ def run(eng, rep):
     rep.explain("Also decided: the documented random options are off by default, the default of init.random_initial_directions being the exact negation of the coordinate initialiser's precondition (C19-1b); no mutable object is created in a class body (C19-2).")
     rep.not_decided += ["bit-identical repetition additionally assumes deterministic NumPy/SciPy kernels (trusted)"]
     rep.assumptions += ["astype() copies by default, slicing/.T/reshape/asarray are views, list()/dict() build new containers"]
-    rule_rng_guarded(eng, rep)
-    rule_random_defaults(eng, rep)
-    rule_no_hidden_state(eng, rep)
-    rule_caller_data(eng, rep)
+    rep.guarded(rule_rng_guarded, eng, rep)
+    rep.guarded(rule_random_defaults, eng, rep)
+    rep.guarded(rule_no_hidden_state, eng, rep)
+    rep.guarded(rule_caller_data, eng, rep)
